@@ -20,7 +20,8 @@ EXPLANATION = (
     "exactly one file for fd-bearing replies) and the Ok value is the received body/file; (R4) every frontend "
     "operation that sends a request with a defined reply (or ack) reads it on every path after the send, so a failure "
     "can reach the caller; (R5) bounded wait, structural half: a typed-reply arm of the backend either replies or "
-    "returns Err (C04), and a reply receiver sizes the variable part of what it waits for from the reply's own header.")
+    "returns Err (C04), and a reply receiver sizes the variable part of what it waits for from the reply's own header."
+    ' Also: (R1) an echo reply without status (SET_LOG_BASE) is sent only under the fact that the handler succeeded; (R6) receive byte counts are never discarded (C08/S7); (R7) the reply-ack flag formula (C04/P4); (R8, R9) C20/X2 for headers and C16/H2 (the daemon closes the connection on a request error).')
 NOT_DECIDED = "Wall-clock bounds; applications that drive BackendReqHandler themselves and ignore its errors."
 
 
